@@ -14,7 +14,7 @@ for name in sorted(os.listdir(os.path.join(HERE, "seeded"))):
     if m.get("history") and own in caught:
         label += " (after strengthening)"
     if m.get("obsolete"):
-        label += "; obsolete now: " + m["obsolete"].split(":")[0]
+        label = ("" if not caught else label + "; ") + "obsolete now: " + m["obsolete"].split(":")[0]
     cell = lambda s: (s or "").replace("|", "/").replace("\n", " ")[:170]
     rows.append("| %s | %s | %s | %s |" % (name, cell(m.get("summary")), cell(m.get("needs_to_manifest")), label))
 table = "\n".join(["| seed | change | needs | caught by |", "|------|--------|-------|-----------|"] + rows)
